@@ -359,6 +359,8 @@ class FnTaint:
                     for s in walk(a):
                         if s.get("k") in ("var", "field"):
                             info.setdefault("var", s.get("n"))
+                            if s.get("k") == "field" and isinstance(s.get("base"), dict):
+                                info.setdefault("dest_field", True)
                             if "iw" in s:
                                 info.setdefault("iw", s["iw"])
                             break
@@ -415,6 +417,8 @@ class FnTaint:
                 for s in walk(args[i]):
                     if s.get("k") in ("var", "field"):
                         info["var"] = s.get("n")
+                        if s.get("k") == "field":
+                            info["dest_field"] = True
                         if "iw" in s:
                             info["iw"] = s["iw"]
                         break
